@@ -139,4 +139,9 @@ CLAIMS = {
    note='Model starts at decoded blocks (construction knowledge of the harness); third-party CAR/CBOR parsing of arbitrary bytes only exercised (raw stream). Requires fix commits: nil-report guard in message.Get/Receipts, nil-ran guard in receipt.Blocks, rejection of results with neither ok nor error. No axioms.',
    technique='Coq proof (totality of the response lookups over all reports and links; refutation of the pinned lookup) + recover-instrumented client runs over crafted and raw replies compared with the model',
    ref='5/C15'),
+ "C07": dict(
+   text='Coq (Formats.v, Signing.v over the DAG-CBOR model Cbor.v): C07_issue_verifies — every token issued with ANY combination of expiration / none, not-before, nonce, facts, proofs, capabilities and caveat values, by any key, verifies against its issuer (the verification payload is rebuilt from the same fields, nonce and not-before included; C07_pinned_refuted shows the pinned payload failed); C07_transport_bytes (decode(encode t) = t with caveats/facts in canonical order, byte-level through the proved CBOR round trip) and C07_transport_verifies (still verifies); C07_tamper (a token carrying the same signature that verifies has the same issuer, signing payload and header), C07_payload_determines_fields (the payload determines issuer, audience, every capability and caveat, proofs, expiration, facts, nonce, not-before), C07_bytes_determine_token, C07_other_principal. Tie: tokens issued through delegation.Delegate with all 64 option subsets x Ed25519/RSA/wrapped issuers x random caveat and fact values over all IPLD kinds: root block bytes must equal Formats.token_bytes and decode back; ucan.VerifySignature must accept fresh and re-decoded tokens and reject each of 18 single-field alterations and every other principal.',
+   note="Symbolic signatures (valid_sign, valid_unique: Ed25519 / RSA deterministic and unforgeable); dag-json + base64url payload formatting is an injective oracle (json_inj, json_canon, join_inj are Section hypotheses, exercised through VerifySignature but not modelled byte for byte); DID/CID strings injective (C14); go-ipld-prime dag-cbor as Cbor.v (checked). Top-level null caveats and integers above int64 are outside the generator (cannot be issued / re-read; not in the property's kinds). Requires fix 17420c3. No axioms.",
+   technique='Coq proof (issue/verify law, byte-level round trip, payload injectivity => tamper detection; symbolic crypto) + byte-for-byte layout correspondence + behavioural oracle over all option subsets and single-field alterations',
+   ref='5/C07'),
 }
